@@ -361,3 +361,22 @@ M("C11", "C11-UNIT", TJ, "            p[name] = xu.to_unit(self.prior.pars[name]
 M("C11", "C11-UNIT", TJ, "        err = data.rv_err.to_value(data.rv.unit)\n", "        err = data.rv_err.value\n", "errors stripped in their own unit")
 M("C11", "C11-INIT", TJ, "            mcmc_init[name] = MAP_sample[name].to_value(unit)\n", "            mcmc_init[name] = MAP_sample[name].value\n", "initial point not converted to the prior's units")
 M("C11", "C11-INIT", TJ, "            MAP_sample = joker_samples.median_period()\n", "            MAP_sample = joker_samples[0]\n", "first sample instead of the median-period sample")
+
+# ---------------------------------------------------------------- C07
+M("C07", "C07-KERNEL", PYX, "                self.P0 = dist._P0.to_value(self.internal_units['P'])", "                self.P0 = dist._P0.to_value(getattr(prior.pars['P'],\n                                                    xu.UNIT_ATTR_NAME))", "P0 stripped in the prior's period unit (reverse of fix)")
+M("C07", "C07-KERNEL", PYX, "                self.sigma_K0 = dist._sigma_K0.to_value(to_unit)\n", "                self.sigma_K0 = dist._sigma_K0.value\n", "sigma_K0 stripped in its own unit")
+M("C07", "C07-KERNEL", PYX, "            data.ivar.to_value(1 / self.data.rv.unit**2), dtype='f8')", "            data.ivar.value, dtype='f8')", "ivar stripped in its own unit")
+M("C07", "C07-KERNEL", PYX, "            self.internal_units[name] = self.data.rv.unit / u.day ** i\n", "            self.internal_units[name] = self.data.rv.unit\n", "trend coefficients declared as plain velocities")
+M("C07", "C07-KERNEL", PYX, "            _unit = getattr(prior.model[name], xu.UNIT_ATTR_NAME)\n            to_unit = self.internal_units[name]\n\n            dist = prior.model[name]\n", "            _unit = getattr(prior.model['v0'], xu.UNIT_ATTR_NAME)\n            to_unit = self.internal_units[name]\n\n            dist = prior.model[name]\n", "every linear prior converted from v0's unit")
+M("C07", "C07-MEANSTD", UT, "    return (mu * in_unit).to_value(out_unit), (std * in_unit).to_value(out_unit)\n", "    return (mu * in_unit).to_value(out_unit), (std * out_unit).to_value(in_unit)\n", "std converted in the wrong direction")
+M("C07", "C07-MEANSTD", UT, "    return (mu * in_unit).to_value(out_unit), (std * in_unit).to_value(out_unit)\n", "    if not hasattr(dist, '_mean_std'):\n        dist._mean_std = ((mu * in_unit).to_value(out_unit), (std * in_unit).to_value(out_unit))\n    return dist._mean_std\n", "converted numbers memoised on the variable (seeded C07-B)")
+M("C07", "C07-TOUNIT", "thejoker/units.py", "    return obj * base.to(target)\n", "    return obj * target.to(base)\n", "to_unit inverted")
+M("C07", "C07-PRIOR", PR, "UniformLog(\"P\", P_min.value, P_max.to_value(P_min.unit)), P_min.unit", "UniformLog(\"P\", P_min.value, P_max.value), P_min.unit", "P_max stripped in its own unit")
+M("C07", "C07-PRIOR", PR, "pm.Normal(name, 0.0, sigma_v[name].value), sigma_v[name].unit", "pm.Normal(name, 0.0, sigma_v[name].value), u.km / u.s", "literal unit for the trend priors")
+M("C07", "C07-PRIOR", DI, "        if K_unit is not None:\n            sigma_K0 = sigma_K0.to_value(K_unit)\n        max_K = max_K.to(sigma_K0.unit)\n", "        if K_unit is not None:\n            sigma_K0 = sigma_K0.to_value(K_unit)\n            max_K = max_K.to(K_unit)\n", "cap only converted on the K_unit path (seeded C09-A)")
+M("C07", "C07-PACK", SM, "            arrs.append(self.tbl[name].to_value(unit))\n", "            arrs.append(self.tbl[name].value)\n", "pack strips without converting")
+M("C07", "C07-READ", UT, "            for i, name in enumerate(columns):\n                if name in units:\n                    batch[:, i] *= table_units[name].to(units[name])\n\n    return batch\n\n\ndef read_random_batch", "            for i, name in enumerate(columns):\n                if name in units:\n                    batch[:, i] *= units[name].to(table_units[name])\n\n    return batch\n\n\ndef read_random_batch", "reader factor inverted")
+M("C07", "C07-DATA", DH, "        if rv_unit is None:\n            rv_unit = d.rv.unit\n", "        rv_unit = d.rv.unit\n", "common unit overwritten per source (seeded C07-A)")
+M("C07", "C07-DATA", SM, "            s_vars = self[\"s\"].to_value(data_unit) ** 2\n", "            s_vars = self[\"s\"].value ** 2\n", "jitter stripped in its own unit")
+M("C07", "C07-INV", SM, "        data_rv = data.rv.value\n", "        data_rv = data.rv.value\n        _scale = data.rv_err.value.mean()\n", "a new unclassified strip site")
+T("C07", PR, "UniformLog(\"P\", P_min.value, P_max.to_value(P_min.unit)), P_min.unit", "UniformLog(\"P\", P_min.value, P_max.to(P_min.unit).value), P_min.unit", "to(...).value instead of to_value")
